@@ -262,7 +262,12 @@ def run_job(spec):
         if not ex.complete:
             res['inconclusive'].append('exploration stopped before all paths were visited (budget)')
         if res['feasible_paths'] == 0:
-            if res['unsupported'] or res['inconclusive']:
+            if res['unsupported'] and not res['inconclusive'] and ex.complete:
+                # nothing of this job could be encoded: the check has lost its coverage of this code and must not
+                # report success (this never happens on the tree the harness was built for)
+                res['harness_errors'].append('encoding lost: every path of the job ended in a construct the front end '
+                                             'does not model (first: %s)' % res['unsupported'][0])
+            elif res['unsupported'] or res['inconclusive']:
                 res['inconclusive'].append('no path reached the assertions (all ended in an unsupported construct / solver unknown)')
             else:
                 res['harness_errors'].append('vacuous job: no feasible path reached the assertions')
